@@ -252,6 +252,11 @@ type listDoc struct {
 	alonePre      string
 	aloneCut      int
 	first, second string // description of the two attributes (pair documents)
+	// elementState: the document is <complete elements><opener><hole>; the hole
+	// must render exactly as in the twin <opener><hole> (checked before the
+	// structure oracle, so that state carried from one element into the next is
+	// keyed as such and not as whatever desync it causes).
+	elementState bool
 }
 
 type docList []listDoc
@@ -291,7 +296,14 @@ func elementStateDocs() docList {
 	var docs docList
 	for _, p := range prefixes {
 		for _, o := range openers {
-			docs = append(docs, listDoc{pre: p + o})
+			d := listDoc{pre: p + o}
+			if p != "" && !strings.Contains(p, `="x`) {
+				// every element of the prefix is complete: the opener starts in the
+				// HTML data state, as it does alone
+				d.alonePre, d.aloneCut, d.elementState = o, 0, true
+				d.first, d.second = p, o
+			}
+			docs = append(docs, d)
 		}
 	}
 	return docs
@@ -801,9 +813,22 @@ func (sd *spaceDef) eval(spaceID int, i uint64) kit.Outcome {
 			twin = buildEntry(sd.f, sd.m, sd.kinds, ld.alonePre, post)
 		}
 		for _, pl := range payloads {
-			o := sd.evalEntry(e, pl)
-			if o.OK && twin != nil {
-				sd.differential(e, twin, ld, pl, &o)
+			var o kit.Outcome
+			if twin != nil && ld.elementState {
+				d := kit.Outcome{OK: true}
+				sd.differential(e, twin, ld, pl, &d)
+				if !d.OK {
+					d.Nontrivial = true
+					r.outcomes = append(r.outcomes, d)
+					continue
+				}
+				o = sd.evalEntry(e, pl)
+				o.Ops += d.Ops
+			} else {
+				o = sd.evalEntry(e, pl)
+				if o.OK && twin != nil {
+					sd.differential(e, twin, ld, pl, &o)
+				}
 			}
 			if !o.OK && directFails {
 				o = kit.Outcome{OK: true, Nontrivial: true, Ops: o.Ops, Class: "changed-also-when-shown-directly(reported-by-the-direct-space)"}
@@ -836,6 +861,9 @@ func (sd *spaceDef) differential(e, twin *entry, ld listDoc, pl payload, o *kit.
 				o.OK = false
 				o.Class = "PAIR-DIFFERS"
 				o.Key = "fmt=html mode=direct attribute-pair: run error only with or only without the first attribute"
+				if ld.elementState {
+					o.Key = "fmt=html mode=direct element-end-state: run error only with or only without the preceding elements"
+				}
 				o.Detail = fmt.Sprintf("files:\n%svalue %q\nwith first attribute: %v\nalone (%q): %v", quoteFiles(e.files), val, err1, ld.alonePre, err2)
 				return
 			}
@@ -849,7 +877,11 @@ func (sd *spaceDef) differential(e, twin *entry, ld listDoc, pl payload, o *kit.
 			o.OK = false
 			o.Class = "PAIR-DIFFERS"
 			quote := func(shape string) string { return strings.Split(shape, ":")[1] }
-			o.Key = fmt.Sprintf("fmt=html mode=direct attribute-pair: second attribute renders differently than alone first-quoting=%s second-quoting=%s %s", quote(ld.first), quote(ld.second), what)
+			if !ld.elementState {
+				o.Key = fmt.Sprintf("fmt=html mode=direct attribute-pair: second attribute renders differently than alone first-quoting=%s second-quoting=%s %s", quote(ld.first), quote(ld.second), what)
+			} else {
+				o.Key = fmt.Sprintf("fmt=html mode=direct element-end-state: hole renders differently after completed elements than alone opener=%q %s", ld.second, what)
+			}
 			o.Detail = fmt.Sprintf("first attribute %s, second attribute %s\nfiles:\n%svalue %q (w=%q, w2=%q)\nrendering          %q\nsecond alone (%s) %q", ld.first, ld.second, quoteFiles(e.files), val, wBenign, w2Benign, out, ld.alonePre+"{{ v }}", alone)
 			return
 		}
